@@ -145,14 +145,19 @@ Definition txt_size_mismatch : list Z :=
 Definition txt_out_of_bounds : list Z :=
   [66;108;111;99;107;32;114;101;113;117;101;115;116;32;111;117;116;32;111;102;32;98;111;117;110;100;115].
 
-(* message.py:440-465 Message._append_request_block *)
+(* optiontypes.py:194-203 BlockwiseTuple.is_valid_for_payload_size *)
+Definition is_valid_for_payload_size (b : blockopt) (payloadsize : Z) : bool :=
+  if b_szx b =? 7 then (if b_more b then payloadsize mod 1024 =? 0 else true)
+  else (if b_more b then payloadsize =? b_size b else payloadsize <=? b_size b).
+
+(* message.py:445-471 Message._append_request_block *)
 Definition append_request_block (self next_block : msg) : R msg :=
   if negb (is_request (m_code self)) then RRaise (EOther ValueError) else
   match m_block1 next_block with
   | None => RRaise (EOther AttributeError)
   | Some block1 =>
     let len := blen (m_payload next_block) in
-    if b_more block1 && negb ((len =? b_size block1) || ((b_szx block1 =? 7) && (len mod b_size block1 =? 0)))
+    if negb (is_valid_for_payload_size block1 len)
     then RRaise (EBadRequest txt_size_mismatch)
     else if b_start block1 =? blen (m_payload self)
     then ROk (set_payload_block1_id_block2 self (m_payload self ++ m_payload next_block) (Some block1) (m_id next_block)
@@ -175,7 +180,7 @@ Definition extract_block (self : resp) (number size_exp max_bert_size : Z) : R r
            p_payload := bslice (p_payload self) start end_ |}.
 
 (* ------------------------------------------------------------------------------------------
-   blockwise.py:60-92 Block1Spool *)
+   blockwise.py:60-93 Block1Spool *)
 Notation spool := (td key msg).
 Definition feed_and_take (T now : Z) (assemblies : spool) (req : msg) : spool * R msg :=
   match m_block1 req with
@@ -198,10 +203,12 @@ Definition feed_and_take (T now : Z) (assemblies : spool) (req : msg) : spool * 
     | (assemblies1, Some e) => (assemblies1, RRaise e)
     | (assemblies1, None) =>
       if b_more block1 then (assemblies1, RRaise (EContinue block1))
-      else match td_getitem key_eqb T now block_key assemblies1 with
-           | Some (asm, assemblies2) => (assemblies2, ROk asm)
-           | None => (assemblies1, RRaise (EOther KeyError))
-           end
+      else
+        (* blockwise.py:88-92: the completed request is handed over and LEAVES the spool (pop is not an access) *)
+        match alist_get key_eqb block_key (td_items assemblies1) with
+        | Some asm => (td_pop key_eqb block_key assemblies1, ROk asm)
+        | None => (assemblies1, RRaise (EOther AttributeError))   (* pop(key) would return None *)
+        end
     end
   end.
 
@@ -332,8 +339,8 @@ Fixpoint drun (T : Z) (st : Z * td Z Z) (ops : list dop) : list dout :=
 
 (* ------------------------------------------------------------------------------------------
    overlapping handler schedules on one resource, for requests WITHOUT Block1 (stream overlapping_renderings).
-   Block2Cache.extract_or_insert (blockwise.py:120-123) computes the key, then awaits response_builder(); everything
-   after the await (store / evict / slice, :130-153) runs when the handler returns, on the cache as it is THEN.
+   Block2Cache.extract_or_insert (blockwise.py:123-135) computes the key, registers itself as the latest builder of the key, then awaits
+   response_builder(); everything after the await (store / evict only if still the latest, slice, :136-164) runs when the handler returns, on the cache as it is THEN.
    [SBegin] = the request arrives and the handler is invoked; [SFinish] = that handler returns its rendering;
    [SLater] = a request for NUM>0 (never awaits); several handlers may be pending at once. *)
 Inductive sevent :=
@@ -346,7 +353,20 @@ Inductive soutput :=
 | SOFinish (response : option resp) (n_completes : Z)
 | SOLater (calls : list msg) (response : resp) (n_completes : Z)
 | SOAdvance (n_completes : Z).
-Record sstate := { s_now : Z; s_res : rstate; s_pending : list (Z * msg) }.
+(* [s_latest] = Block2Cache._latest_rendering: block key -> id of the most recently started builder that has not returned *)
+Record sstate := { s_now : Z; s_res : rstate; s_pending : list (Z * msg); s_latest : list (key * Z) }.
+(* the part of extract_or_insert after `await response_builder()` for a rendering request (blockwise.py:131-160):
+   only the builder started last for its key may store / evict *)
+Definition extract_or_insert_late (T now : Z) (completes : cache) (req : msg) (assembled : resp) (is_latest : bool) : cache * R resp :=
+  let block_key := extract_block_key req in
+  let len := blen (p_payload assembled) in
+  if (len >? m_mps req)
+     || match m_block2 req with Some b2 => (len >? b_size b2) || negb (b_num b2 =? 0) | None => false end
+  then
+    let completes2 := if is_latest then td_setitem key_eqb T now block_key assembled completes else completes in
+    let block2 := match m_block2 req with Some b2 => b2 | None => {| b_num := 0; b_more := false; b_szx := m_mbse req |} end in
+    (completes2, extract_block assembled (b_num block2) (b_szx block2) (m_mps req))
+  else ((if is_latest then td_pop key_eqb block_key completes else completes), ROk assembled).
 Fixpoint pending_get (id : Z) (l : list (Z * msg)) : option msg :=
   match l with [] => None | (i, m) :: r => if i =? id then Some m else pending_get id r end.
 Definition render_result_of (r : R resp) (b1 : option blockopt) : resp :=
@@ -354,26 +374,30 @@ Definition render_result_of (r : R resp) (b1 : option blockopt) : resp :=
 Definition sstep (T : Z) (st : sstate) (e : sevent) : sstate * soutput :=
   match e with
   | SBegin id req =>
-    ({| s_now := s_now st; s_res := s_res st; s_pending := (id, req) :: s_pending st |}, SOBegin [req])
+    ({| s_now := s_now st; s_res := s_res st; s_pending := (id, req) :: s_pending st;
+        s_latest := alist_set key_eqb (extract_block_key req) id (s_latest st) |}, SOBegin [req])
   | SFinish id rendering =>
     match pending_get id (s_pending st) with
     | None => (st, SOFinish None (snd (rsizes (s_res st))))
     | Some req =>
-      let '(ca, _, r) := extract_or_insert T (s_now st) (block2 (s_res st)) req rendering in
+      let k := extract_block_key req in
+      let is_latest := match alist_get key_eqb k (s_latest st) with Some i => i =? id | None => false end in
+      let '(ca, r) := extract_or_insert_late T (s_now st) (block2 (s_res st)) req rendering is_latest in
       let s' := {| block1 := block1 (s_res st); block2 := ca |} in
-      ({| s_now := s_now st; s_res := s'; s_pending := filter (fun p => negb (fst p =? id)) (s_pending st) |},
+      ({| s_now := s_now st; s_res := s'; s_pending := filter (fun p => negb (fst p =? id)) (s_pending st);
+          s_latest := if is_latest then alist_remove key_eqb k (s_latest st) else s_latest st |},
        SOFinish (Some (render_result_of r (m_block1 req))) (snd (rsizes s')))
     end
   | SLater req =>
     let '(s', calls, res) := render_to_pipe T (s_now st) (s_res st) req {| p_code := 0; p_block1 := None; p_block2 := None; p_payload := [] |} in
-    ({| s_now := s_now st; s_res := s'; s_pending := s_pending st |}, SOLater calls res (snd (rsizes s')))
+    ({| s_now := s_now st; s_res := s'; s_pending := s_pending st; s_latest := s_latest st |}, SOLater calls res (snd (rsizes s')))
   | SAdvance dt =>
     let s' := rstate_advance T (s_now st + dt) (s_res st) in
-    ({| s_now := s_now st + dt; s_res := s'; s_pending := s_pending st |}, SOAdvance (snd (rsizes s')))
+    ({| s_now := s_now st + dt; s_res := s'; s_pending := s_pending st; s_latest := s_latest st |}, SOAdvance (snd (rsizes s')))
   end.
 Fixpoint srun (T : Z) (st : sstate) (es : list sevent) : list soutput :=
   match es with
   | [] => []
   | e :: r => let '(st1, o) := sstep T st e in o :: srun T st1 r
   end.
-Definition sstate_init : sstate := {| s_now := 0; s_res := rstate_empty; s_pending := [] |}.
+Definition sstate_init : sstate := {| s_now := 0; s_res := rstate_empty; s_pending := []; s_latest := [] |}.
